@@ -173,9 +173,14 @@ func c01MapPipeProgram(rng *rand.Rand) string {
 	}
 	fmt.Fprintf(&sb, "    map call INNER as M1(\n        x = split [%s],\n        p = %s,\n        k = %s,\n    )\n\n", strings.Join(xs, ", "), p, c01IntElem(rng, true))
 	sb.WriteString("    call USE2(\n        ys = M1.y,\n        zs = M1.zs,\n        qs = M1.q,\n        cs = M1.c,\n        xs = M1.x2,\n    )\n\n")
-	fmt.Fprintf(&sb, "    map call INNER as M2(\n        x = split {%s},\n        p = GEN.w,\n        k = 3,\n    )\n\n", strings.Join(mx, ", "))
-	sb.WriteString("    call USEM2(\n        ys = M2.y,\n        zs = M2.zs,\n        qs = M2.q,\n    )\n\n")
-	fmt.Fprintf(&sb, "    return (\n        ys = M1.y,\n        r  = USE2.r,\n        r2 = USEM2.r,\n    )\n}\n\ncall TOP(\n    v = %d,\n)\n", rng.Intn(20))
+	if rng.Intn(2) == 0 {
+		// the same pipeline in typed-map mode
+		fmt.Fprintf(&sb, "    map call INNER as M2(\n        x = split {%s},\n        p = GEN.w,\n        k = 3,\n    )\n\n", strings.Join(mx, ", "))
+		sb.WriteString("    call USEM2(\n        ys = M2.y,\n        zs = M2.zs,\n        qs = M2.q,\n    )\n\n")
+		fmt.Fprintf(&sb, "    return (\n        ys = M1.y,\n        r  = USE2.r,\n        r2 = USEM2.r,\n    )\n}\n\ncall TOP(\n    v = %d,\n)\n", rng.Intn(20))
+	} else {
+		fmt.Fprintf(&sb, "    return (\n        ys = M1.y,\n        r  = USE2.r,\n        r2 = USE2.r,\n    )\n}\n\ncall TOP(\n    v = %d,\n)\n", rng.Intn(20))
+	}
 	return sb.String()
 }
 
